@@ -93,7 +93,7 @@ def gen_fa(rng, kind=None, max_states=5, max_symbols=3, max_trans=9, plain_symbo
         hashes = {k: v for k, v in hashes.items() if not k.startswith("Y:")} or None
     case = {"kind": kind, "valmode": valmode, "symmode": symmode, "states": states,
             "symbols": symbols, "hash": hashes, "hashmode": mode, "trans": trans, "starts": starts,
-            "finals": finals, "ctor": rng.chance(0.25), "ctor_all": rng.chance(0.5), "ctor_tf": rng.chance(0.12), "words_as_symbols": rng.chance(0.3), "words_form": rng.pick(["list", "list", "list", "tuple", "iter"]),
+            "finals": finals, "ctor": rng.chance(0.25), "ctor_all": rng.chance(0.5), "ctor_tf": rng.chance(0.12), "words_as_symbols": rng.chance(0.3), "words_form": rng.pick(["list", "list", "list", "tuple", "iter"]), "bulk": rng.chance(0.15),
             "extra_symbols": ([rng.pick(["x", "y"])] if rng.chance(0.12) else []),
             "extra_states": []}
     if rng.chance(0.18):
@@ -267,8 +267,12 @@ def build(case):
         fa.add_start_state(sval(case, gs))
     for p, a, q in ghosts[:1]:
         fa.add_transition(sval(case, p), Epsilon() if a is None else yval(case, a), sval(case, q))
-    for p, a, q in case["trans"]:
-        fa.add_transition(sval(case, p), Epsilon() if a is None else yval(case, a), sval(case, q))
+    if case.get("bulk"):
+        fa.add_transitions([(sval(case, p), Epsilon() if a is None else yval(case, a), sval(case, q))
+                            for p, a, q in case["trans"]])
+    else:
+        for p, a, q in case["trans"]:
+            fa.add_transition(sval(case, p), Epsilon() if a is None else yval(case, a), sval(case, q))
     for p, a, q in ghosts[1:]:
         fa.add_transition(sval(case, p), Epsilon() if a is None else yval(case, a), sval(case, q))
     for p, a, q in ghosts:
@@ -367,6 +371,8 @@ def shrink_fa(case):
         yield mk(ghost_start=None)
     if case.get("ctor_tf"):
         yield mk(ctor_tf=False)
+    if case.get("bulk"):
+        yield mk(bulk=False)
     if case.get("words_form", "list") != "list":
         yield mk(words_form="list")
     if case.get("ctor"):
